@@ -2,4 +2,331 @@ import SwayVerif.Model.Doc
 /-! Helper lemmas for C23 (`Props/C23.lean`). -/
 namespace SwayVerif.Doc
 
+/-! ## Byte lengths -/
+
+theorem u8len_pos (c : Char) : 0 < u8len c := by
+  unfold u8len
+  split
+  · omega
+  · split
+    · omega
+    · split <;> omega
+
+theorem u8len_newline : u8len '\n' = 1 := by decide
+
+@[simp] theorem blen_nil : blen [] = 0 := rfl
+@[simp] theorem blen_cons (c : Char) (cs : List Char) : blen (c :: cs) = u8len c + blen cs := rfl
+
+theorem blen_append (a b : List Char) : blen (a ++ b) = blen a + blen b := by
+  induction a with
+  | nil => simp
+  | cons c cs ih => simp [ih, Nat.add_assoc]
+
+theorem blen_pos_of_ne_nil {m : List Char} (h : m ≠ []) : 0 < blen m := by
+  cases m with
+  | nil => exact absurd rfl h
+  | cons c cs => have := u8len_pos c; simp; omega
+
+/-! ## Splitting at byte offsets -/
+
+theorem splitAtByte_zero (s : List Char) : splitAtByte s 0 = some ([], s) := by
+  cases s <;> rfl
+
+theorem splitAtByte_cons_pos (c : Char) (cs : List Char) (n : Nat) (h : 0 < n) :
+    splitAtByte (c :: cs) n =
+      if n < u8len c then none
+      else match splitAtByte cs (n - u8len c) with
+        | some (a, b) => some (c :: a, b)
+        | none => none := by
+  cases n with
+  | zero => omega
+  | succ n => rfl
+
+theorem splitAtByte_append (p q : List Char) : splitAtByte (p ++ q) (blen p) = some (p, q) := by
+  induction p with
+  | nil => simp [splitAtByte_zero]
+  | cons c cs ih =>
+    have h := u8len_pos c
+    rw [List.cons_append, splitAtByte_cons_pos _ _ _ (by simp; omega)]
+    have h1 : ¬ (blen (c :: cs) < u8len c) := by simp
+    have h2 : blen (c :: cs) - u8len c = blen cs := by simp
+    rw [if_neg h1, h2, ih]
+
+theorem sliceBytes_append (p m q : List Char) :
+    sliceBytes (p ++ (m ++ q)) (blen p) (blen p + blen m) = some m := by
+  unfold sliceBytes
+  have h1 : ¬ (blen p + blen m < blen p) := by omega
+  have h2 : blen p + blen m - blen p = blen m := by omega
+  rw [if_neg h1, splitAtByte_append, h2]
+  simp only [splitAtByte_append]
+
+theorem replaceRange_append (p m q t : List Char) :
+    replaceRange (p ++ (m ++ q)) (blen p) (blen p + blen m) t = some (p ++ t ++ q) := by
+  unfold replaceRange
+  have h1 : ¬ (blen p + blen m < blen p) := by omega
+  have h2 : blen p + blen m - blen p = blen m := by omega
+  rw [if_neg h1, splitAtByte_append, h2]
+  simp only [splitAtByte_append]
+
+/-! ## Lines -/
+
+theorem breakLine_some {s l r : List Char} (h : breakLine s = some (l, r)) (i : Nat) :
+    s = l ++ r ∧ lineOffsetsAux s i = (i + blen l) :: lineOffsetsAux r (i + blen l) := by
+  induction s generalizing l i with
+  | nil => simp [breakLine] at h
+  | cons c cs ih =>
+    unfold breakLine at h
+    split at h
+    · rename_i hc
+      simp only [Option.some.injEq, Prod.mk.injEq] at h
+      obtain ⟨rfl, rfl⟩ := h
+      subst hc
+      simp [lineOffsetsAux, u8len_newline]
+    · rename_i hc
+      split at h
+      · rename_i l' r' hb
+        simp only [Option.some.injEq, Prod.mk.injEq] at h
+        obtain ⟨rfl, rfl⟩ := h
+        obtain ⟨h1, h2⟩ := ih hb (i + u8len c)
+        refine ⟨by simp [← h1], ?_⟩
+        simp only [lineOffsetsAux, if_neg hc, h2, blen_cons, Nat.add_assoc]
+      · simp at h
+
+theorem breakLine_none {s : List Char} (h : breakLine s = none) (i : Nat) :
+    lineOffsetsAux s i = [] := by
+  induction s generalizing i with
+  | nil => rfl
+  | cons c cs ih =>
+    unfold breakLine at h
+    split at h
+    · simp at h
+    · rename_i hc
+      split at h
+      · simp at h
+      · rename_i hb
+        simp only [lineOffsetsAux, if_neg hc]
+        exact ih hb _
+
+theorem stripSuffixChar_prefix (s : List Char) (ch : Char) : ∃ t, s = stripSuffixChar s ch ++ t := by
+  unfold stripSuffixChar
+  split
+  · rename_i c r h
+    split
+    · refine ⟨[c], ?_⟩
+      have : s = (c :: r).reverse := by rw [← h, List.reverse_reverse]
+      simpa using this
+    · exact ⟨[], by simp⟩
+  · exact ⟨[], by simp⟩
+
+/-! ## Columns -/
+
+theorem walkLine_gt (cs : List Char) (idx u t : Nat) (h : t < u) : walkLine cs idx u t = none := by
+  cases cs with
+  | nil => simp [walkLine, h]
+  | cons c cs =>
+    have h1 : u ≠ t := by omega
+    simp [walkLine, h, h1]
+
+theorem walkLine_eq (cs : List Char) (idx u col : Nat) :
+    walkLine cs idx u (u + col) = (colPrefix cs col).map (fun p => idx + blen p) := by
+  induction cs generalizing idx u col with
+  | nil =>
+    have h : ¬ (u > u + col) := by omega
+    cases col <;> simp [walkLine, colPrefix]
+  | cons c cs ih =>
+    cases col with
+    | zero => simp [walkLine, colPrefix]
+    | succ k =>
+      have h1 : u ≠ u + (k + 1) := by omega
+      have h2 : ¬ (u > u + (k + 1)) := by omega
+      simp only [walkLine, colPrefix, if_neg h1, if_neg h2]
+      by_cases h3 : k + 1 < u16len c
+      · rw [if_pos h3, walkLine_gt _ _ _ _ (by omega)]
+        rfl
+      · rw [if_neg h3]
+        have h4 : u + (k + 1) = (u + u16len c) + (k + 1 - u16len c) := by omega
+        rw [h4, ih]
+        cases colPrefix cs (k + 1 - u16len c) with
+        | none => rfl
+        | some p => simp [Nat.add_assoc]
+
+theorem colPrefix_prefix {cs : List Char} {col : Nat} {p : List Char}
+    (h : colPrefix cs col = some p) : ∃ q, cs = p ++ q := by
+  induction cs generalizing col p with
+  | nil =>
+    cases col <;> simp [colPrefix] at h <;> subst h <;> exact ⟨[], rfl⟩
+  | cons c cs ih =>
+    cases col with
+    | zero =>
+      simp [colPrefix] at h
+      subst h
+      exact ⟨_, rfl⟩
+    | succ k =>
+      simp only [colPrefix] at h
+      split at h
+      · simp at h
+      · split at h
+        · rename_i p' hp
+          simp only [Option.some.injEq] at h
+          subst h
+          obtain ⟨q, hq⟩ := ih hp
+          exact ⟨q, by simp [← hq]⟩
+        · simp at h
+
+theorem walkLine_zero (cs : List Char) (idx col : Nat) :
+    walkLine cs idx 0 col = (colPrefix cs col).map (fun p => idx + blen p) := by
+  simpa using walkLine_eq cs idx 0 col
+
+theorem firstLineContent_prefix (s : List Char) : ∃ t, s = firstLineContent s ++ t := by
+  unfold firstLineContent
+  cases hb : breakLine s with
+  | none =>
+    obtain ⟨t1, h1⟩ := stripSuffixChar_prefix s '\n'
+    obtain ⟨t2, h2⟩ := stripSuffixChar_prefix (stripSuffixChar s '\n') '\r'
+    exact ⟨t2 ++ t1, by rw [← List.append_assoc, ← h2, ← h1]⟩
+  | some lr =>
+    obtain ⟨l, r⟩ := lr
+    obtain ⟨hs, _⟩ := breakLine_some hb 0
+    obtain ⟨t1, h1⟩ := stripSuffixChar_prefix l '\n'
+    obtain ⟨t2, h2⟩ := stripSuffixChar_prefix (stripSuffixChar l '\n') '\r'
+    refine ⟨t2 ++ t1 ++ r, ?_⟩
+    simp only
+    rw [← List.append_assoc, ← List.append_assoc, ← h2, ← h1, hs]
+
+/-! ## Positions -/
+
+theorem tryPositionToIndex_cons_succ (content : List Char) (x : Nat) (offs : List Nat) (line col : Nat) :
+    tryPositionToIndex content (x :: offs) ⟨line + 1, col⟩ = tryPositionToIndex content offs ⟨line, col⟩ := by
+  simp [tryPositionToIndex]
+
+theorem tryPositionToIndex_line_zero (pre s : List Char) (col : Nat) :
+    tryPositionToIndex (pre ++ s) (blen pre :: lineOffsetsAux s (blen pre)) ⟨0, col⟩
+      = some ((clientPrefix s 0 col).map (fun p => blen pre + blen p)) := by
+  cases hb : breakLine s with
+  | none =>
+    have hs := sliceBytes_append pre s []
+    simp only [List.append_nil] at hs
+    simp [tryPositionToIndex, breakLine_none hb, blen_append, hs, walkLine_zero, clientPrefix,
+      firstLineContent, hb]
+  | some lr =>
+    obtain ⟨l, r⟩ := lr
+    obtain ⟨hs, ho⟩ := breakLine_some hb (blen pre)
+    have hsl := sliceBytes_append pre l r
+    rw [← hs] at hsl
+    simp [tryPositionToIndex, ho, hsl, walkLine_zero, clientPrefix, firstLineContent, hb]
+
+theorem tryPositionToIndex_eq (pre s : List Char) (line col : Nat) :
+    tryPositionToIndex (pre ++ s) (blen pre :: lineOffsetsAux s (blen pre)) ⟨line, col⟩
+      = some ((clientPrefix s line col).map (fun p => blen pre + blen p)) := by
+  induction line generalizing pre s with
+  | zero => exact tryPositionToIndex_line_zero pre s col
+  | succ line ih =>
+    cases hb : breakLine s with
+    | none =>
+      simp [tryPositionToIndex, breakLine_none hb, clientPrefix, hb, blen_append]
+    | some lr =>
+      obtain ⟨l, r⟩ := lr
+      obtain ⟨hs, ho⟩ := breakLine_some hb (blen pre)
+      have := ih (pre ++ l) r
+      rw [blen_append, List.append_assoc, ← hs] at this
+      rw [ho, tryPositionToIndex_cons_succ, this]
+      simp only [clientPrefix, hb]
+      cases clientPrefix r line col with
+      | none => rfl
+      | some p => simp [blen_append, Nat.add_assoc]
+
+theorem clientPrefix_prefix {s : List Char} {line col : Nat} {p : List Char}
+    (h : clientPrefix s line col = some p) : ∃ q, s = p ++ q := by
+  induction line generalizing s p with
+  | zero =>
+    simp only [clientPrefix] at h
+    obtain ⟨q, hq⟩ := colPrefix_prefix h
+    obtain ⟨t, ht⟩ := firstLineContent_prefix s
+    exact ⟨q ++ t, by rw [← List.append_assoc, ← hq, ← ht]⟩
+  | succ line ih =>
+    simp only [clientPrefix] at h
+    split at h
+    · simp only [Option.some.injEq] at h
+      exact ⟨[], by simp [h]⟩
+    · rename_i l r hb
+      obtain ⟨hs, _⟩ := breakLine_some hb 0
+      split at h
+      · rename_i p' hp
+        simp only [Option.some.injEq] at h
+        obtain ⟨q, hq⟩ := ih hp
+        exact ⟨q, by rw [hs, ← h, List.append_assoc, ← hq]⟩
+      · simp at h
+
+theorem tryPositionToIndex_doc (doc : List Char) (pos : Pos) :
+    tryPositionToIndex doc (lineOffsets doc) pos
+      = some ((clientPrefix doc pos.line pos.character).map blen) := by
+  have := tryPositionToIndex_eq [] doc pos.line pos.character
+  simpa [lineOffsets] using this
+
+/-! ## Prefix comparison -/
+
+theorem prefix_len_le_iff {doc p p' q q' : List Char} (hp : doc = p ++ p') (hq : doc = q ++ q') :
+    p.length ≤ q.length ↔ blen p ≤ blen q := by
+  have hpp : p <+: doc := ⟨p', hp.symm⟩
+  have hqp : q <+: doc := ⟨q', hq.symm⟩
+  constructor
+  · intro h
+    obtain ⟨m, hm⟩ := List.prefix_of_prefix_length_le hpp hqp h
+    rw [← hm, blen_append]; omega
+  · intro h
+    by_cases hl : p.length ≤ q.length
+    · exact hl
+    · exfalso
+      obtain ⟨m, hm⟩ := List.prefix_of_prefix_length_le hqp hpp (by omega)
+      have hne : m ≠ [] := by
+        intro h0; subst h0; simp at hm; subst hm; omega
+      have := blen_pos_of_ne_nil hne
+      rw [← hm, blen_append] at h; omega
+
+/-! ## Server = client -/
+
+theorem serverApplyRange_eq (doc : List Char) (r : Range) (text : List Char) :
+    serverApplyRange doc r text =
+      match clientApplyRange doc r text with
+      | some d => .ok d
+      | none => .err := by
+  unfold serverApplyRange clientApplyRange
+  simp only [tryPositionToIndex_doc]
+  cases hp : clientPrefix doc r.start.line r.start.character with
+  | none => cases hq : clientPrefix doc r.stop.line r.stop.character <;> rfl
+  | some p =>
+    cases hq : clientPrefix doc r.stop.line r.stop.character with
+    | none => rfl
+    | some q =>
+      obtain ⟨p', hp'⟩ := clientPrefix_prefix hp
+      obtain ⟨q', hq'⟩ := clientPrefix_prefix hq
+      have hiff := prefix_len_le_iff hp' hq'
+      have hqd : blen q ≤ blen doc := by rw [hq', blen_append]; omega
+      simp only [Option.map_some]
+      by_cases hl : p.length ≤ q.length
+      · have hb := hiff.mp hl
+        obtain ⟨m, hm⟩ := List.prefix_of_prefix_length_le ⟨p', hp'.symm⟩ ⟨q', hq'.symm⟩ hl
+        have hdoc : doc = p ++ (m ++ q') := by rw [← List.append_assoc, hm]; exact hq'
+        have hrr := replaceRange_append p m q' text
+        rw [← hdoc, ← blen_append, hm] at hrr
+        have hdrop : doc.drop q.length = q' := by rw [hq']; simp
+        have hcond : (decide (blen p > blen q) || decide (blen q > blen doc)) = false := by
+          simp; omega
+        simp only [hcond, hrr, if_pos hl, hdrop]
+        rfl
+      · have hb : ¬ blen p ≤ blen q := fun h => hl (hiff.mpr h)
+        have hcond : (decide (blen p > blen q) || decide (blen q > blen doc)) = true := by
+          simp; omega
+        simp only [hcond, if_neg hl]
+        rfl
+
+theorem serverApply_eq (doc : List Char) (r : Option Range) (text : List Char) :
+    serverApply doc r text =
+      match clientApply doc r text with
+      | some d => .ok d
+      | none => .err := by
+  cases r with
+  | none => rfl
+  | some r => exact serverApplyRange_eq doc r text
+
 end SwayVerif.Doc
